@@ -168,6 +168,7 @@ struct World {
   std::vector<int64_t> clock_tape; size_t c_i = 0;
   int64_t default_clock_step = 100;  // us per tick
   int64_t interrupt_at_tick = -1;
+  int64_t interrupt_rel = -1; int interrupt_rel_step = -1;   // arm the interrupt relative to the start of a step
   bool thread_inv = false;
   bool deadlock_check = false;
   int deadlock_streak = 0;
@@ -566,6 +567,8 @@ static void hook_done(sexp ctx, void* res, size_t req, size_t size) {
 #if SIM_ASAN
   if (!W.poison || !res || !sexp_pointerp((sexp)res)) return;
   if (!W.ctx || !in_ctx_heap(ctx, res)) return;
+  // a failed allocation returns the shared out-of-memory error object, not a fresh chunk
+  if ((sexp)res == sexp_global(ctx, SEXP_G_OOM_ERROR)) return;
   if (size > req) poison_region((char*)res + req, size - req);
 #endif
 }
@@ -1378,6 +1381,8 @@ static void configure_world(const js::Value& plan) {
     W.clock_tape = sc->getiv("clock_step");
     W.default_clock_step = sc->geti("default_clock_step", 100);
     W.interrupt_at_tick = sc->geti("interrupt_at_tick", -1);
+    W.interrupt_rel = sc->geti("interrupt_rel", -1);
+    W.interrupt_rel_step = (int)sc->geti("interrupt_rel_step", -1);
     W.tick_budget = sc->geti("tick_budget", 0);
     W.thread_inv = sc->getb("thread_inv", false);
     W.deadlock_check = sc->getb("deadlock_check", false);
@@ -1466,6 +1471,7 @@ static void run_plan(const js::Value& plan) {
       uint64_t a0 = W.nalloc;
       std::string op = st.gets("op", "eval");
       W.event("step %d %s", W.cur_step, op.c_str());
+      if (W.interrupt_rel >= 0 && W.interrupt_rel_step == W.cur_step) W.interrupt_at_tick = (int64_t)W.ticks + W.interrupt_rel;
       if (g_destroyed && op != "fdcount") {
         sr.res = "context-destroyed"; sr.exc = true;
       } else if (op == "eval") {
